@@ -57,7 +57,22 @@ def main():
     tail = ot.strip().splitlines()[-1] if ot.strip() else ""
     failed = re.findall(r"FAILED (\S+)", ot)
     res["tests"] = tail
-    res["tests_pass"] = rct == 0 or (failed and all("test_run2" in f for f in failed))
+    ok_tests = rct == 0
+    if not ok_tests and failed and len(failed) <= 3:
+        # the suite has a few tests that flake under parallel load on the unmodified tree: a failed
+        # test counts only if it also fails when re-run alone (3 tries)
+        ok_tests = True
+        for f in failed:
+            passed = False
+            for _ in range(3):
+                r1, _o = sh([PY, "-m", "pytest", "-q", "-p", "no:cacheprovider", "--no-cov", f.split(" ")[0]],
+                            cwd=copy, env=env1, timeout=1800)
+                if r1 == 0:
+                    passed = True
+                    break
+            ok_tests = ok_tests and passed
+        res["tests_rerun_alone"] = failed
+    res["tests_pass"] = bool(ok_tests)
     checks = {}
     for prop in [pid] + also:
         envc = dict(os.environ, TOPSEARCH_REPO=str(copy))
